@@ -38,6 +38,7 @@ def mkapp(inp, outp):
         dt = DateTime; da = Date; t = Time; du = Duration; by = ByteArray; u = Uuid
         i8 = Integer8; u16 = UnsignedInteger16; e = Color
         arr = Array(Integer); m = Integer(max_occurs='unbounded')
+        aa = Array(Array(Integer))
 
     class S(Service):
         @srpc(C, Integer, Array(C), _returns=Integer)
@@ -264,7 +265,10 @@ def corpus(fam, quick):
         for q in ['c=1', 'c.i.x=1', 'cs[x].i=1', 'cs[-1].i=1', 'cs[99999999999999999999].i=1', 'cs[0]=1', 'c.arr[0]=1',
                   'c.m[1]=1', 'n=1&n=2', '=1', '&&&', 'c.i', 'cs[0].i[0]=1', 'cs[1].i=1&cs[0].i=2', '%ff=1', 'n=%ff',
                   'c.s=%ud800', 'cs[0].i=1&cs[0].i=2', 'cs[].i=1', 'cs[0.i=1', 'cs]0[.i=1', 'c..i=1', '.=1', 'c.=1',
-                  'n=1;n=2', 'n', 'cs[0][1].i=1', 'c.arr=x', 'c.m=x&c.m=1', 'zzz=1', 'c.zzz=1', 'n=5&' * 50]:
+                  'n=1;n=2', 'n', 'cs[0][1].i=1', 'c.arr=x', 'c.m=x&c.m=1', 'zzz=1', 'c.zzz=1', 'n=5&' * 50,
+                  # an array of arrays has no spelling in this notation: whatever is tried is refused or ignored, not a crash
+                  'c.aa=1&c.aa=2', 'c.aa[0].integer=1&c.aa[0].integer=2&c.aa[1].integer=3', 'c.aa[0]=1', 'c.aa.integer=1', 'c.aa[0][1]=1',
+                  'c.aa[0].integerArray=1', 'c.aa.integerArray.integer=1', 'c.aa[0].integerArray[0].integer=1']:
             out.append((q, {'REQUEST_METHOD': 'GET', 'PATH_INFO': '/f', 'QUERY_STRING': q}, b''))
         for path in ['/', '', '/f/', '/zzz', '/F', '//f', '/f/x', '/%66']:
             out.append(('path ' + path, {'REQUEST_METHOD': 'GET', 'PATH_INFO': path, 'QUERY_STRING': 'n=1'}, b''))
